@@ -18,6 +18,7 @@ mod p07;
 mod p08;
 mod p09;
 mod items;
+mod giant;
 mod p11;
 mod p12;
 mod rsim;
